@@ -355,6 +355,31 @@ def check(model: Model, run: Run) -> None:
     )
     _r8_field_overlap(model, run, folder)
 
+    run.rule(
+        'C15.R9',
+        'a copy equals its original: __copy__ / __deepcopy__ of the message classes give the copy every slot the class declares, '
+        'taken from the same slot of the original',
+        floor=10,
+    )
+    from .common import copy_completeness_rule
+
+    copy_completeness_rule(model, run, ('exabgp.bgp.message.', 'exabgp.rib.', 'exabgp.protocol.'), 'index(), pack and json of the copy differ from the original', floor=10)
+
+    run.rule('C15.R10', 'FlowSpec NLRI length round trip: the encoder writes one byte below 240 and 0xFnnn from 240 to 4095, the decoder takes a first byte with the 0xF0 nibble for the two-byte form - a length of exactly 240 written on one byte (0xF0) is read back as the start of a two-byte length (shared with C16.R4)', floor=3)
+    from .C16 import flow_length_rule
+
+    flow_length_rule(model, run, folder)
+
+    run.rule(
+        'C15.R11',
+        'a rendering kept in the object is the rendering of the object alone: where a method stores its result in a slot of self '
+        '(`if not self._json: self._json = ...`) the stored value does not depend on an argument of that call, unless the method '
+        'bypasses the slot whenever that argument is not its default - otherwise the JSON of one UPDATE depends on how the previous '
+        'one (same attribute block, served from the block cache) was rendered',
+        floor=1,
+    )
+    _r11_memo_args(model, run)
+
     run.rule('C15.R4', 'no __eq__ compares a field of self with the same field of self (a typo that makes distinct objects equal)', floor=41)
     n_e = 0
     for fi in model.funcs.values():
@@ -536,3 +561,47 @@ def _r8_field_overlap(model: Model, run: Run, folder: Folder) -> None:
     run.extra['field_overlap_paths'] = n_paths
     if n_funcs < 17:
         run.cannot('only %d decoders with two or more constant-position fields found' % n_funcs)
+
+
+# ---------------------------------------------------------------------------------------------- R11
+def _r11_memo_args(model: Model, run: Run) -> None:
+    from ..flow import flat_guards, parent_map
+
+    n = 0
+    for q, fi in sorted(model.funcs.items()):
+        if '.bgp.message.' not in q or fi.cls is None:
+            continue
+        params = {a.arg for a in fi.node.args.args[1:]} | {a.arg for a in fi.node.args.kwonlyargs}
+        if not params:
+            continue
+        pm = None
+        for st in walk_no_nested(fi.node):
+            if not (isinstance(st, ast.Assign) and len(st.targets) == 1):
+                continue
+            d = dotted(st.targets[0]) or ''
+            if not (d.startswith('self._') and d.count('.') == 1):
+                continue
+            pm = pm or parent_map(fi.node)
+            g = flat_guards(fi.node, st, pm)
+            # a memo: assigned where the slot is found empty, and returned
+            is_memo = any(dotted(t) == d and not pol for t, pol in g) or any(isinstance(t, ast.Compare) and dotted(t.left) == d and isinstance(t.comparators[0], ast.Constant) and t.comparators[0].value is None for t, pol in g)
+            returned = any(isinstance(r, ast.Return) and r.value is not None and dotted(r.value) == d for r in walk_no_nested(fi.node))
+            if not (is_memo and returned):
+                continue
+            n += 1
+            used = {x.id for x in ast.walk(st.value) if isinstance(x, ast.Name)} & params
+            fixed = set()
+            for t, pol in g:
+                if not pol:
+                    fixed |= {x.id for x in ast.walk(t) if isinstance(x, ast.Name)} & params
+            free = sorted(used - fixed)
+            run.check(
+                not free,
+                q,
+                'the value kept in %s does not depend on an argument of the call' % d,
+                fi.loc(st),
+                'the slot is filled with %s, which reads the argument %s, and is returned to every later caller whatever they pass: the '
+                'first rendering decides what all the others get' % (norm(st.value)[:60], ', '.join(free)),
+            )
+    if n < 1:
+        run.cannot('only %d memoised renderings found in the message classes' % n)
